@@ -1,7 +1,7 @@
 (* TlsfStep2.v — every operation of the TLSF model preserves the second invariant and never
    panics; consequences: bookkeeping observers (C03), no-panic (C13), an emptied block is a fresh
    block (C18). *)
-From Coq Require Import ZArith NArith Lia List Bool.
+From Coq Require Import ZArith NArith Lia List Bool Permutation.
 From Arsenal Require Import Util Bits Gran Tlsf TlsfGeom TlsfInv1 TlsfFree TlsfAlloc TlsfStep TlsfProps
      SizeClass TlsfInv2 TlsfInv2Free TlsfInv2Alloc TlsfSearch.
 Import ListNotations.
@@ -316,6 +316,13 @@ Proof.
   - intros E. rewrite live_livef, E. reflexivity.
 Qed.
 
+Lemma fold_left_rev {A B} (g : A -> B -> A) l a :
+  fold_left g (rev l) a = fold_right (fun b d => g d b) a l.
+Proof.
+  revert a; induction l as [|x l IH]; intros a; cbn; [reflexivity|].
+  rewrite fold_left_app. cbn. rewrite IH. reflexivity.
+Qed.
+
 Definition dspec (tk fp : list blk) (size : Z) : dstats :=
   mkDStats (mkStats 1 (zlen tk) size (sum_sizes tk)) (zlen fp)
            (lmin (map b_size tk)) (lmax (map b_size tk)) (lmin (map b_size fp)) (lmax (map b_size fp)).
@@ -364,8 +371,7 @@ Proof.
     + rewrite sum_sizes_app, (chain_sum _ _ Hch). cbn. lia.
   - unfold add_statistics. rewrite Hac, Hsum. f_equal. lia.
   - unfold add_detailed_statistics. cbv zeta.
-    rewrite <- (rev_involutive (t_chain t)) at 2 3.
-    rewrite <- fold_left_rev_right. rewrite rev_involutive.
+    rewrite fold_left_rev.
     assert (Hd1 : (if b_size (t_null t) >? 0
                    then d_add_unused (mkDStats (mkStats 1 0 (t_size t) 0) 0 None 0 None 0) (b_size (t_null t))
                    else mkDStats (mkStats 1 0 (t_size t) 0) 0 None 0 None 0)
@@ -373,6 +379,234 @@ Proof.
     { unfold null_part. destruct (Z.gtb_spec (b_size (t_null t)) 0); destruct (Z.ltb_spec 0 (b_size (t_null t))); try lia; reflexivity. }
     rewrite Hd1.
     rewrite <- (app_nil_r (live t)). rewrite live_livef.
-    rewrite <- (dfold (t_chain t) [] (null_part t) (t_size t)).
-    rewrite rev_involutive. reflexivity.
+    rewrite <- (dfold (t_chain t) [] (null_part t) (t_size t)). reflexivity.
+Qed.
+
+(* ------------------------------------------------------------------ C03: Validate *)
+
+Lemma count_list_ok_acc t l n :
+  (forall o, In o l -> exists b, find_blk o (t_chain t) = Some b /\ b_free b = true) ->
+  fold_left (fun acc o =>
+               match find_blk o (t_chain t) with
+               | Some b => (fst acc && b_free b, snd acc + 1)
+               | None => (false, snd acc + 1)
+               end) l (true, n) = (true, n + zlen l).
+Proof.
+  revert n; induction l as [|o l IH]; intros n H; cbn [fold_left].
+  - rewrite zlen_nil. f_equal. lia.
+  - destruct (H o (or_introl eq_refl)) as (b & -> & ->). cbn [fst snd andb].
+    rewrite IH by (intros o' Ho'; apply H; right; auto). rewrite zlen_cons. f_equal. lia.
+Qed.
+
+Lemma count_list_ok_eq t l :
+  (forall o, In o l -> exists b, find_blk o (t_chain t) = Some b /\ b_free b = true) ->
+  count_list_ok t l = (true, zlen l).
+Proof. intros H. unfold count_list_ok. rewrite count_list_ok_acc by auto. f_equal. Qed.
+
+Lemma lists_fold_acc t ls n :
+  (forall l, In l ls -> forall o, In o l -> exists b, find_blk o (t_chain t) = Some b /\ b_free b = true) ->
+  fold_left (fun acc l => (fst acc && fst (count_list_ok t l), snd acc + snd (count_list_ok t l))) ls (true, n)
+  = (true, n + zlen (concat ls)).
+Proof.
+  revert n; induction ls as [|l ls IH]; intros n H; cbn [fold_left concat].
+  - rewrite zlen_nil. f_equal. lia.
+  - rewrite count_list_ok_eq by (apply H; left; auto).
+    cbn [fst snd andb]. rewrite IH by (intros l' Hl'; apply H; right; auto).
+    rewrite zlen_app. f_equal. lia.
+Qed.
+
+Lemma NoDup_app_intro {A} (a b : list A) :
+  NoDup a -> NoDup b -> (forall x, In x a -> ~ In x b) -> NoDup (a ++ b).
+Proof.
+  induction a as [|x a IH]; intros Ha Hb Hd; cbn; auto.
+  inversion Ha as [|? ? Hx Ha']; subst. constructor.
+  - rewrite in_app_iff. intros [H|H]; [auto|]. apply (Hd x); [left; auto|auto].
+  - apply IH; auto. intros y Hy. apply Hd. right; auto.
+Qed.
+
+Lemma in_concat_nth (ls : list (list Z)) x : In x (concat ls) <-> exists i, In x (nth i ls []).
+Proof.
+  rewrite in_concat. split.
+  - intros (l & Hl & Hx). destruct (In_nth _ _ [] Hl) as (i & _ & E). exists i. rewrite E. auto.
+  - intros (i & Hx). destruct (Nat.lt_ge_cases i (length ls)) as [Hlt|Hge].
+    + exists (nth i ls []). split; auto. apply nth_In. auto.
+    + rewrite nth_overflow in Hx by lia. destruct Hx.
+Qed.
+
+Lemma NoDup_concat (ls : list (list Z)) :
+  (forall i, NoDup (nth i ls [])) ->
+  (forall i j x, In x (nth i ls []) -> In x (nth j ls []) -> i = j) -> NoDup (concat ls).
+Proof.
+  induction ls as [|l ls IH]; intros Hnd Hdisj; cbn [concat]; [constructor|].
+  apply NoDup_app_intro.
+  - apply (Hnd 0%nat).
+  - apply IH.
+    + intros i. apply (Hnd (S i)).
+    + intros i j x Hi Hj. assert (S i = S j) by (apply (Hdisj (S i) (S j) x); auto). lia.
+  - intros x Hx Hc. apply in_concat_nth in Hc. destruct Hc as (j & Hj).
+    assert (0%nat = S j) by (apply (Hdisj 0%nat (S j) x); auto). lia.
+Qed.
+
+Lemma lat_of_nat lists i : lat lists (Z.of_nat i) = nth i lists [].
+Proof. unfold lat. destruct (Z.ltb_spec (Z.of_nat i) 0); [lia|]. rewrite Nat2Z.id. reflexivity. Qed.
+
+Lemma lists_total t : FLt t -> zlen (concat (t_lists t)) = zlen (frees (t_chain t)).
+Proof.
+  intros HFL. unfold zlen. f_equal.
+  rewrite <- (map_length b_off (frees (t_chain t))).
+  apply Permutation_length. apply NoDup_Permutation.
+  - apply NoDup_concat.
+    + intros i. rewrite <- lat_of_nat. apply (fl_lnd _ _ _ _ _ _ _ HFL).
+    + intros i j x Hi Hj. rewrite <- lat_of_nat in Hi, Hj.
+      apply (fl_in _ _ _ _ _ _ _ HFL) in Hi. apply (fl_in _ _ _ _ _ _ _ HFL) in Hj.
+      destruct Hi as (b1 & Hb1 & Ho1 & Hi1). destruct Hj as (b2 & Hb2 & Ho2 & Hi2).
+      assert (b1 = b2); [|subst; lia].
+      pose proof (fl_nd _ _ _ _ _ _ _ HFL) as Hnd.
+      clear - Hb1 Hb2 Ho1 Ho2 Hnd. subst x.
+      induction (frees (t_chain t)) as [|y l IH]; [destruct Hb1|].
+      cbn [map] in Hnd. inversion Hnd as [|? ? Hy Hnd']; subst.
+      destruct Hb1 as [->|Hb1]; destruct Hb2 as [->|Hb2]; auto.
+      * exfalso. apply Hy. rewrite <- Ho2. apply in_map. auto.
+      * exfalso. apply Hy. rewrite Ho2. apply in_map. auto.
+  - apply (fl_nd _ _ _ _ _ _ _ HFL).
+  - intros x. rewrite in_concat_nth. split.
+    + intros (i & Hi). rewrite <- lat_of_nat in Hi. apply (fl_in _ _ _ _ _ _ _ HFL) in Hi.
+      destruct Hi as (b & Hb & Ho & _). rewrite <- Ho. apply in_map. auto.
+    + rewrite in_map_iff. intros (b & Ho & Hb).
+      pose proof (FL_idx_range _ _ _ _ _ _ _ b HFL Hb) as Hr.
+      exists (Z.to_nat (list_of_size (b_size b))). rewrite <- lat_of_nat, Z2Nat.id by lia.
+      apply (fl_in _ _ _ _ _ _ _ HFL). exists b. auto.
+Qed.
+
+Definition vstep (acc : bool * Z * Z * Z * Z * Z) (b : blk) : bool * Z * Z * Z * Z * Z :=
+  let '(ok, next_off, csize, cfree, nalloc, nfree) := acc in
+  (ok && (b_off b + b_size b =? next_off), b_off b, csize + b_size b,
+   (if b_free b then cfree + b_size b else cfree),
+   (if b_free b then nalloc else nalloc + 1),
+   (if b_free b then nfree + 1 else nfree)).
+
+Lemma walk_spec o c cs cf na nf :
+  chain_from o c ->
+  fold_right (fun b acc => vstep acc b) (true, chain_end o c, cs, cf, na, nf) c
+  = (true, o, cs + sum_sizes c, cf + sum_sizes (frees c), na + zlen (livef c), nf + zlen (frees c)).
+Proof.
+  revert o; induction c as [|x c IH]; intros o H.
+  - cbn [fold_right chain_end sum_sizes frees livef filter]. unfold zlen. cbn [length Z.of_nat].
+    repeat match goal with |- (_, _) = (_, _) => apply f_equal2 end; try reflexivity; lia.
+  - cbn [chain_from] in H. destruct H as (Ho & Hs & Hc). cbn [fold_right chain_end].
+    rewrite (IH _ Hc). unfold vstep. cbn [andb].
+    rewrite Ho, Z.eqb_refl. cbn [sum_sizes frees livef filter]. fold (frees c). fold (livef c).
+    destruct (b_free x); cbn [negb sum_sizes]; rewrite ?zlen_cons;
+      repeat match goal with |- (_, _) = (_, _) => apply f_equal2 end; try reflexivity; lia.
+Qed.
+
+Theorem tlsf_validate t :
+  TInv t -> Inv2 t ->
+  gran_validate (t_gran t) (map (fun b => (b_off b, b_size b)) (live t)) = Some true ->
+  validate t = Some true.
+Proof.
+  intros HT HI Hgv. pose proof HT as [Hinv _]. pose proof HI as [HFL Hac _ _].
+  pose proof Hinv as [[Hch Hnoff Hnsz Htot Hnfree] _ _ _].
+  pose proof (sum_free_size_le t Hinv HI) as (_ & Hle).
+  unfold validate. destruct (Z.ltb_spec (t_size t) (sum_free_size t)); [lia|].
+  cbv zeta.
+  rewrite (lists_fold_acc t (t_lists t) 0).
+  2:{ intros l Hl o Ho. destruct (In_nth _ _ [] Hl) as (i & _ & E).
+      assert (Hin : In o (list_at t (Z.of_nat i))) by (rewrite list_at_lat, lat_of_nat, E; auto).
+      destruct (free_of_list t _ o Hinv HFL Hin) as (b & Hf & _ & Hbf & _). eauto. }
+  cbn [fst snd negb].
+  rewrite fold_left_rev.
+  change (fun (b : blk) (d : bool * Z * Z * Z * Z * Z) => _) with (fun b acc => vstep acc b).
+  rewrite Hnoff. rewrite (walk_spec 0 (t_chain t) _ _ _ _ Hch).
+  rewrite Hgv. f_equal.
+  pose proof (chain_sum _ _ Hch) as Hcs. pose proof (fl_fs _ _ _ _ _ _ _ HFL) as Hfs.
+  pose proof (fl_fc _ _ _ _ _ _ _ HFL) as Hfc. rewrite (lists_total t HFL).
+  rewrite !andb_true_iff, !Z.eqb_eq. unfold sum_free_size. rewrite live_livef in Hac.
+  repeat split; try lia.
+Qed.
+
+Lemma gran_validate_disabled g l : enabled g = false -> gran_validate g l = Some true.
+Proof. intros H. unfold gran_validate. rewrite H. reflexivity. Qed.
+
+Corollary tlsf_validate_disabled t :
+  TInv t -> Inv2 t -> enabled (t_gran t) = false -> validate t = Some true.
+Proof. intros HT HI He. apply tlsf_validate; auto. apply gran_validate_disabled; auto. Qed.
+
+(* ------------------------------------------------------------------ C18: an emptied block is a fresh block *)
+
+Lemma all_nil_repeat (l : list (list Z)) : (forall i, nth i l [] = []) -> l = repeat [] (length l).
+Proof.
+  induction l as [|x l IH]; intros H; cbn; [reflexivity|].
+  pose proof (H 0%nat) as H0. cbn in H0. subst x. f_equal. apply IH. intros i. apply (H (S i)).
+Qed.
+
+Lemma all_zero_repeat (l : list N) : (forall i, nth i l 0%N = 0%N) -> l = repeat 0%N (length l).
+Proof.
+  induction l as [|x l IH]; intros H; cbn; [reflexivity|].
+  pose proof (H 0%nat) as H0. cbn in H0. subst x. f_equal. apply IH. intros i. apply (H (S i)).
+Qed.
+
+Lemma N_zero_nobit n : (forall j, 0 <= j -> N.testbit n (Z.to_N j) = false) -> n = 0%N.
+Proof.
+  intros H. destruct (N.eq_dec n 0) as [|Hne]; auto. exfalso.
+  apply N_nonzero_bit in Hne. destruct Hne as (j & Hj & Hb). rewrite (H j Hj) in Hb. discriminate.
+Qed.
+
+Definition fresh_with (g : gran) (size : Z) : tlsf :=
+  mkT size g [] (free_blk 0 size) (repeat [] (Z.to_nat (list_count size))) 0%N
+      (repeat 0%N max_memory_classes) 0 0 0.
+
+Lemma fresh_with_init h gr size : fresh_with (gran_init h gr size) size = tlsf_init h gr size.
+Proof. reflexivity. Qed.
+
+Theorem tlsf_empty_is_fresh t :
+  TInv t -> Inv2 t -> live t = [] -> t = fresh_with (t_gran t) (t_size t).
+Proof.
+  intros [Hinv _] [HFL Hac _ Hnl] Hlive.
+  pose proof Hinv as [[Hch Hnoff Hnsz Htot Hnfree] _ _ _].
+  pose proof (proj1 (live_empty_iff t Hinv) Hlive) as Hc.
+  unfold FLt in HFL. rewrite Hc in HFL. cbn [frees filter] in HFL.
+  destruct HFL as [Hsz Hlen _ _ Hin _ (Hil & Hib & Hob) Hfc Hfs].
+  assert (Hempty : forall idx, lat (t_lists t) idx = []).
+  { intros idx. destruct (lat (t_lists t) idx) as [|o l] eqn:E; auto. exfalso.
+    assert (Ho : In o (lat (t_lists t) idx)) by (rewrite E; left; auto).
+    apply Hin in Ho. destruct Ho as (b & [] & _). }
+  assert (Hlists : t_lists t = repeat [] (Z.to_nat (list_count (t_size t)))).
+  { rewrite <- Hlen. unfold zlen. rewrite Nat2Z.id. apply all_nil_repeat.
+    intros i. rewrite <- lat_of_nat. apply Hempty. }
+  assert (Hinner0 : forall mc, 0 <= mc -> inner_at (t_inner t) mc = 0%N).
+  { intros mc Hmc. apply N_zero_nobit. intros j Hj.
+    destruct (N.testbit (inner_at (t_inner t) mc) (Z.to_N j)) eqn:E; auto. exfalso.
+    apply Hib in E; auto. destruct E as (_ & Hne). apply Hne. apply Hempty. }
+  assert (Hinner : t_inner t = repeat 0%N max_memory_classes).
+  { rewrite <- Hil. apply all_zero_repeat. intros i.
+    specialize (Hinner0 (Z.of_nat i) ltac:(lia)). unfold inner_at in Hinner0. rewrite Nat2Z.id in Hinner0. auto. }
+  assert (Hbm : t_bitmap t = 0%N).
+  { apply N_zero_nobit. intros j Hj. destruct (N.testbit (t_bitmap t) (Z.to_N j)) eqn:E; auto. exfalso.
+    apply Hob in E; [|exact Hj]. apply E. apply Hinner0. exact Hj. }
+  rewrite Hc in Hnoff. cbn in Hnoff.
+  assert (Hnull : t_null t = free_blk 0 (t_size t)).
+  { rewrite Hnl. f_equal; lia. }
+  rewrite Hlive in Hac. unfold zlen in Hac, Hfc. cbn in Hac, Hfc, Hfs.
+  unfold fresh_with. destruct t; cbn in *. subst. reflexivity.
+Qed.
+
+(* Clear yields the same state, with the cleared granularity table *)
+Theorem tlsf_clear_is_fresh t :
+  Inv2 t -> tlsf_clear t = fresh_with (gran_clear (t_gran t)) (t_size t).
+Proof.
+  intros [HFL _ _ Hnl]. unfold tlsf_clear, fresh_with. rewrite Hnl. cbn [set_blk free_blk b_kind b_reqsize b_reqalign b_tag].
+  f_equal. f_equal. pose proof (fl_len _ _ _ _ _ _ _ HFL) as Hlen. unfold zlen in Hlen. rewrite <- Hlen, Nat2Z.id. reflexivity.
+Qed.
+
+(* with an all-zero page table the emptied block is literally the initial state, so every future
+   history behaves as on a fresh block *)
+Corollary tlsf_empty_is_init t h gr :
+  TInv t -> Inv2 t -> live t = [] -> t_gran t = gran_init h gr (t_size t) ->
+  t = tlsf_init h gr (t_size t) /\
+  forall ops, run t ops = run (tlsf_init h gr (t_size t)) ops.
+Proof.
+  intros HT HI Hl Hg. assert (E : t = tlsf_init h gr (t_size t)).
+  { rewrite (tlsf_empty_is_fresh t HT HI Hl) at 1. rewrite Hg. apply fresh_with_init. }
+  split; auto. intros ops. rewrite E at 1. reflexivity.
 Qed.
